@@ -84,7 +84,20 @@ def run(ctx):
             # tell taken in this iteration before the alternative
             it_start = max((j for j, x in enumerate(p.events[:i]) if x.kind == "ITER"), default=0)
             tells = [x for x in p.events[it_start:i] if x.kind == "TELL" and x["stream"] == STREAM]
-            ctx.ob("C09.R3", fi, bool(tells) and t.val(tells[-1]["res"]) == before, "the position is taken before each alternative in the same iteration", key="tell before alternative", node=e.node)
+            anchor_ok = bool(tells) and t.val(tells[-1]["res"]) == before
+            if not tells:
+                # the position taken once before the loop serves every alternative, by induction over the iterations: nothing moves the stream
+                # between that tell and the loop, nothing in an iteration moves it before the alternative, and an iteration that goes on to the
+                # next alternative ends with an absolute seek back to it (obligation "failed alternative restored" below)
+                lp = next((j for j, x in enumerate(p.events[:i]) if x.kind == "LOOP"), None)
+                pre = [x for x in p.events[:lp] if x.kind == "TELL" and x["stream"] == STREAM] if lp is not None else []
+                if pre:
+                    j0 = p.index(pre[-1])
+                    quiet = not any(x.kind in ("READ", "READALL", "SEEK", "WRITE", "SUB", "RAWIO") and x.a.get("stream") == STREAM for x in p.events[j0 + 1:i])
+                    anchor_ok = quiet and t.val(pre[-1]["res"]) == t.pos_before(p.events[lp])
+                    if anchor_ok:
+                        before = t.val(pre[-1]["res"])
+            ctx.ob("C09.R3", fi, anchor_ok, "the position every alternative starts from is taken before it (in its iteration, or once before the loop with every failed alternative seeking back to it)", key="tell before alternative", node=e.node)
             if e.raised:
                 nxt = p.events[i + 1] if i + 1 < len(p.events) else None
                 if nxt is None or nxt.kind != "CATCH" or nxt["types"] == ("ExplicitError",):
